@@ -254,6 +254,10 @@ def build ():
   add("eapol_eap_request", e(bytes.fromhex("0180c2000003"), M1, 0x888e,
       eapol(0, eap(1, 5, 1, b"identity?"))))
   add("eapol_eap_success", e(bytes.fromhex("0180c2000003"), M1, 0x888e, eapol(0, eap(3, 5))))
+  add("eapol_key", e(bytes.fromhex("0180c2000003"), M1, 0x888e,
+      eapol(3, b"\x02\x00\x8a\x00\x10" + bytes(range(40)), ver=2)))
+  add("eapol_logoff", e(bytes.fromhex("0180c2000003"), M1, 0x888e, eapol(2, b"")))
+  add("eapol_asf_alert", e(bytes.fromhex("0180c2000003"), M1, 0x888e, eapol(4, b"alert body")))
   add("eapol_eap_md5", e(bytes.fromhex("0180c2000003"), M1, 0x888e,
       eapol(0, eap(2, 6, 4, b"\x10" + b"\xaa" * 16 + b"name"))))
   add("mpls_ip", e(M2, M1, 0x8847, mpls(100, 3, 1, 64, ip(IP1, IP2, 17,
@@ -329,3 +333,99 @@ def build ():
     add("tcp_mptcp_" + nm, e(M2, M1, 0x0800, ip(IP1, IP2, 6, F.tcp(
         40000, 443, b"mp", options=opts, src=IP1, dst=IP2))))
   return C
+
+
+# What each corpus frame is, in the class vocabulary of the packet library
+# (written down by hand from the frame definitions above; a parser that stops
+# short of this, or takes another turn, has not parsed the frame).
+EXPECTED_LAYERS = {
+  'eth_other': 'ethernet',
+  'eth_short_payload': 'ethernet',
+  'vlan_other': 'ethernet>vlan',
+  'vlan_cfi': 'ethernet>vlan',
+  'llc': 'ethernet>llc',
+  'llc_ctl2': 'ethernet>llc',
+  'snap0_ip': 'ethernet>llc>ipv4>udp',
+  'snap_cdp': 'ethernet>llc',
+  'vlan_llc': 'ethernet>vlan>llc',
+  'arp_request': 'ethernet>arp',
+  'arp_reply': 'ethernet>arp',
+  'rarp': 'ethernet>arp',
+  'tcp_syn': 'ethernet>ipv4>tcp',
+  'tcp_data_odd': 'ethernet>ipv4>tcp',
+  'tcp_options': 'ethernet>ipv4>tcp',
+  'tcp_sack': 'ethernet>ipv4>tcp',
+  'tcp_ipopts': 'ethernet>ipv4>tcp',
+  'udp_plain': 'ethernet>ipv4>udp',
+  'udp_nocsum': 'ethernet>ipv4>udp',
+  'udp_padded': 'ethernet>ipv4>udp',
+  'icmp_echo': 'ethernet>ipv4>icmp>echo',
+  'icmp_echo_reply_odd': 'ethernet>ipv4>icmp>echo',
+  'icmp_unreach': 'ethernet>ipv4>icmp>unreach>ipv4',
+  'icmp_unreach_short': 'ethernet>ipv4>icmp>unreach',
+  'icmp_time_exceeded': 'ethernet>ipv4>icmp>time_exceeded>ipv4',
+  'icmp_other': 'ethernet>ipv4>icmp',
+  'ip_frag_first': 'ethernet>ipv4',
+  'ip_frag_later': 'ethernet>ipv4',
+  'ip_proto_other': 'ethernet>ipv4',
+  'ip_igmp2_query': 'ethernet>ipv4>igmp',
+  'ip_igmp2_report': 'ethernet>ipv4>igmp',
+  'ip_igmp3_report': 'ethernet>ipv4>igmp',
+  'gre_plain_ip': 'ethernet>ipv4>gre>ipv4>udp',
+  'gre_key_seq': 'ethernet>ipv4>gre>ethernet',
+  'gre_csum': 'ethernet>ipv4>gre>ipv4>icmp>echo',
+  'dhcp_discover': 'ethernet>ipv4>udp>dhcp',
+  'dhcp_offer': 'ethernet>ipv4>udp>dhcp',
+  'dhcp_overload': 'ethernet>ipv4>udp>dhcp',
+  'dns_query': 'ethernet>ipv4>udp>dns',
+  'dns_response': 'ethernet>ipv4>udp>dns',
+  'rip_response': 'ethernet>ipv4>udp>rip',
+  'rip_request': 'ethernet>ipv4>udp>rip',
+  'vxlan': 'ethernet>ipv4>udp>vxlan>ethernet>arp',
+  'lldp_min': 'ethernet>lldp',
+  'lldp_full': 'ethernet>lldp',
+  'lldp_two_caps': 'ethernet>lldp',
+  'lldp_long_tlv': 'ethernet>lldp',
+  'eapol_start': 'ethernet>eapol',
+  'eapol_key': 'ethernet>eapol',
+  'eapol_logoff': 'ethernet>eapol',
+  'eapol_asf_alert': 'ethernet>eapol',
+  'eapol_eap_request': 'ethernet>eapol>eap',
+  'eapol_eap_success': 'ethernet>eapol>eap',
+  'eapol_eap_md5': 'ethernet>eapol>eap',
+  'mpls_ip': 'ethernet>mpls',
+  'mpls_stack': 'ethernet>mpls>mpls',
+  'ip6_udp': 'ethernet>ipv6>udp',
+  'ip6_tcp': 'ethernet>ipv6>tcp',
+  'ip6_echo': 'ethernet>ipv6>icmpv6>echo',
+  'ip6_echo_reply': 'ethernet>ipv6>icmpv6>echo',
+  'ip6_ns': 'ethernet>ipv6>icmpv6>NDNeighborSolicitation',
+  'ip6_na': 'ethernet>ipv6>icmpv6>NDNeighborAdvertisement',
+  'ip6_rs': 'ethernet>ipv6>icmpv6>NDRouterSolicitation',
+  'ip6_ra': 'ethernet>ipv6>icmpv6>NDRouterAdvertisement',
+  'ip6_unreach': 'ethernet>ipv6>icmpv6>unreach',
+  'ip6_hbh_udp': 'ethernet>ipv6>udp',
+  'ip6_dstopts_routing': 'ethernet>ipv6>tcp',
+  'ip6_fragment': 'ethernet>ipv6',
+  'ip6_nonext': 'ethernet>ipv6',
+  'ip6_mld': 'ethernet>ipv6>icmpv6',
+  'ip6_ra_unknown_opts': 'ethernet>ipv6>icmpv6>NDRouterAdvertisement',
+  'ip6_ns_nonce': 'ethernet>ipv6>icmpv6>NDNeighborSolicitation',
+  'ip6_too_big': 'ethernet>ipv6>icmpv6>PacketTooBig',
+  'ip6_time_exceeded': 'ethernet>ipv6>icmpv6>TimeExceeded',
+  'ip6_unreach_short': 'ethernet>ipv6>icmpv6>unreach',
+  'ip6_unreach_bare': 'ethernet>ipv6>icmpv6>unreach',
+  'ip6_param_problem': 'ethernet>ipv6>icmpv6',
+  'ip6_too_big_short': 'ethernet>ipv6>icmpv6>PacketTooBig',
+  'tcp_mptcp_capable': 'ethernet>ipv4>tcp',
+  'tcp_mptcp_join': 'ethernet>ipv4>tcp',
+  'tcp_mptcp_dss': 'ethernet>ipv4>tcp',
+  'tcp_mptcp_dss64': 'ethernet>ipv4>tcp',
+  'tcp_mptcp_unknown_x10': 'ethernet>ipv4>tcp',
+  'tcp_mptcp_dss_zero': 'ethernet>ipv4>tcp',
+  'tcp_mptcp_dss_ack0': 'ethernet>ipv4>tcp',
+  'tcp_mptcp_dss_ack0_64': 'ethernet>ipv4>tcp',
+  'tcp_mptcp_unknown_1': 'ethernet>ipv4>tcp',
+  'tcp_mptcp_add_addr': 'ethernet>ipv4>tcp',
+  'tcp_mptcp_fastclose': 'ethernet>ipv4>tcp',
+}
